@@ -208,6 +208,75 @@ def ob_streams(h):
     h.check("all_duties_positive", And(*[s.heat_flow > 0 for s in co + ev]))
 
 
+def ob_condenser_profile(h):
+    """_build_condenser_profile (sub-critical): a polyline from the compressor discharge to the condenser outlet whose enthalpy never
+    rises -- also when the discharge lies inside the two-phase dome (dry fluids), where the saturated-vapour point must be skipped."""
+    c = _cycle(h)
+    H, T = h.reals("H", 4), h.reals("T", 4)
+    for i in range(4):
+        c._cycle_states[i, "H"] = H[i]
+        c._cycle_states[i, CoolProp.iT] = T[i]
+        c._cycle_states[i, CoolProp.iP] = h.real(f"P{i}", lo=1.0, hi=1e8)     # sub-critical (the stand-in's critical pressure is 1e12)
+    c._solved = True
+    hv = SymReal(_uf(f"h_{CoolProp.PQ_INPUTS}", 2)(lift_real(c._cycle_states[1, CoolProp.iP]), z3.RealVal(1)))
+    hl = SymReal(_uf(f"h_{CoolProp.PQ_INPUTS}", 2)(lift_real(c._cycle_states[1, CoolProp.iP]), z3.RealVal(0)))
+    # thermodynamics assumed of the stand-in: saturated liquid below saturated vapour and below the discharge; outlet not above saturated liquid
+    h.assume(And(hl < hv, hl < H[1], H[2] <= hl))
+    prof = c._build_condenser_profile()
+    hs = [prof[i, 0] for i in range(prof.shape[0])]
+    h.check("starts_at_compressor_discharge", h.eq(hs[0], H[1]))
+    h.check("ends_at_condenser_outlet", h.eq(hs[-1], H[2]))
+    for a, b in zip(hs, hs[1:]):
+        h.check("enthalpy_never_rises_along_the_condenser", a >= b)
+    h.check("profile_spans_exactly_the_condenser_enthalpy_drop", h.eq(sum([a - b for a, b in zip(hs, hs[1:])], 0.0), H[1] - H[2]))
+
+
+def ob_fluid_state(h):
+    """After solve(refrigerant=r) the cycle has been computed with r's property state, whatever happened to the object before."""
+    made = []
+
+    class Tagged(FakeState):
+        def __init__(self, fluid):
+            super().__init__()
+            self.fluid = fluid
+
+        def keyed_output(self, k):
+            return 1e12 if k == CoolProp.iP_critical else (1e9 if k == CoolProp.iT_critical else 300.0)
+
+    def fake_pfs(x):
+        if isinstance(x, Tagged):
+            return x
+        t = Tagged(x)
+        made.append(t)
+        return t
+    if not h.symbolic:
+        raise ReplayMismatch("CoolProp is axiomatised: no native replay")
+    h.stub(shp, "process_fluid_state", fake_pfs)
+    c = shp.SimpleHeatPumpCycle.__new__(shp.SimpleHeatPumpCycle)
+    c._cycle_states = States()
+    c._state = None
+    c._solved = False
+    c._refrigerant = None
+    c._dtcont, c._dt_diff_max = 0.0, 0.5
+    psat = _uf(f"p_{CoolProp.QT_INPUTS}", 2)
+    h.assume(SymReal(psat(z3.RealVal(1), z3.RealVal("293.15"))) <= SymReal(psat(z3.RealVal(1), z3.RealVal("353.15"))))
+    last = None
+    for step in range(3):
+        op = h.choice(f"op{step}", ["solve_A", "solve_B", "set_state_B", "set_state_A"])
+        if op.startswith("solve"):
+            fluid = op[-1]
+            from pvc.sym import PathAbort
+            try:
+                c.solve(20.0, 80.0, refrigerant=fluid, ihx_gas_dt=0.0, Q_h_total=1000.0)
+            except ZeroDivisionError:
+                raise PathAbort()
+            h.check("cycle_solved_with_the_requested_fluid", getattr(c._state, "fluid", None) == fluid)
+            h.check("reports_the_requested_fluid", c.refrigerant == fluid)
+        else:
+            c.state = op[-1]
+            h.check("setting_the_state_invalidates_the_solution", c._solved is False)
+
+
 def ob_native(h):
     """The same clauses on the REAL property library for a few concrete cycles (smoke obligation; bounded)."""
     from pvc.engine import native
@@ -244,6 +313,10 @@ def obligations():
         Obligation("C18.cycle", ob_cycle, functions=[C.solve, C._get_P_sat_from_T, C._compute_state_from_pressure_temperature, C._compute_condenser_outlet_state,
                                                    C._compute_state_from_pressure_enthalpy, C._save_cycle_state, C._get_metrics],
                    expect=("throttling_conserves_enthalpy",), stubs=("CoolProp.AbstractState (axiomatised)",)),
+        Obligation("C18.condenser_profile", ob_condenser_profile, functions=[C._build_condenser_profile], stubs=("CoolProp.AbstractState (axiomatised)",),
+                   expect=("enthalpy_never_rises_along_the_condenser",)),
+        Obligation("C18.fluid_state.b", ob_fluid_state, kind="bounded", bound="every sequence of 3 operations from {solve(A), solve(B), state = A, state = B} on one object",
+                   functions=[C.solve, C._validate_solve_inputs, C.state.fset], stubs=("process_fluid_state (tagged stand-in)",), max_paths=20000),
         Obligation("C18.native.b", ob_native, kind="bounded", bound="five concrete cycles (ammonia, water, R134a, propane; incl. a 3 K lift) x both request orders, real CoolProp",
                    functions=[C.solve, C.build_stream_collection]),
         Obligation("C18.streams", ob_streams, functions=[C.build_stream_collection], expect=("evaporator_streams_carry_Q_evap",),
